@@ -57,7 +57,18 @@ inductive Res (α : Type) where
   | err : Err → Res α
   deriving DecidableEq, Repr
 
+/-- The code as it is (all `false`) and the three repairs the model can also follow
+    (proposed_fixes/C06-*.diff): `fixFlat` — `quadratic` answers (0, cost[1], 0) on `alpha == 0`;
+    `fixOr` — the flag is or-ed (`|=`) instead of added; `fixEnds` — the interval-end test is made on the
+    sample index (`dsp != 0 and dsp != n_disp - 1`) instead of on the disparity value. -/
+structure Variant where
+  fixFlat : Bool := false
+  fixOr : Bool := false
+  fixEnds : Bool := false
+  deriving DecidableEq, Repr, Inhabited
+
 structure Params where
+  variant : Variant := {}
   method : Method
   /-- `type_measure == "max"` -/
   isMax : Bool
@@ -97,8 +108,8 @@ def vfit (isMax : Bool) (c0 : Val) (c1 : Rat) (c2 : Val) : Res MOut :=
 /-- `min(1.0, max(-1.0, x))` -/
 def clamp1 (x : Rat) : Rat := if x < -1 then -1 else if 1 < x then 1 else x
 
-/-- quadratic.py `Quadratic.refinement_method` -/
-def quadratic (isMax : Bool) (c0 : Val) (c1 : Rat) (c2 : Val) : Res MOut :=
+/-- quadratic.py `Quadratic.refinement_method` (`fixFlat`: with the guard of the proposed repair) -/
+def quadratic (fixFlat : Bool) (isMax : Bool) (c0 : Val) (c1 : Rat) (c2 : Val) : Res MOut :=
   match c0, c2 with
   | .num a0, .num a2 =>
     if sgn isMax c1 > sgn isMax a0 ∨ sgn isMax c1 > sgn isMax a2 then .ok ⟨0, c1, stoppedBit⟩
@@ -106,16 +117,24 @@ def quadratic (isMax : Bool) (c0 : Val) (c1 : Rat) (c2 : Val) : Res MOut :=
       let alpha := (a0 - 2 * c1 + a2) / 2
       let beta := (a2 - a0) / 2
       -- `-beta / (2 * alpha)`: numba raises on a zero divisor
-      if 2 * alpha = 0 then .err .zeroDivision
+      if 2 * alpha = 0 then (if fixFlat then .ok ⟨0, c1, 0⟩ else .err .zeroDivision)
       else
         let sub := clamp1 (-beta / (2 * alpha))
         .ok ⟨sub, alpha * (sub * sub) + beta * sub + c1, 0⟩
   | _, _ => .ok ⟨0, c1, stoppedBit⟩
 
-def runMethod (m : Method) (isMax : Bool) (c0 : Val) (c1 : Rat) (c2 : Val) : Res MOut :=
+def runMethod (fixFlat : Bool) (m : Method) (isMax : Bool) (c0 : Val) (c1 : Rat) (c2 : Val) : Res MOut :=
   match m with
   | .vfit => vfit isMax c0 c1 c2
-  | .quadratic => quadratic isMax c0 c1 c2
+  | .quadratic => quadratic fixFlat isMax c0 c1 c2
+
+/-- `mask[row, col] += v`  (`fixOr`: `|= v`) -/
+def addFlag (fixOr : Bool) (flag v : Nat) : Nat := if fixOr then flag ||| v else flag + v
+
+/-- the test that lets the method run: `disp != d_min and disp != d_max`
+    (`fixEnds`: `dsp != 0 and dsp != n_disp - 1`) -/
+def notAtEnd (P : Params) (n : Nat) (dv : Rat) (dsp : Int) : Bool :=
+  if P.variant.fixEnds then (dsp != 0 && dsp != (n : Int) - 1) else (dv != P.dmin && dv != P.dmax)
 
 /-- one pixel as the loop sees it: its cost row `cv[row, col, :]`, its disparity, its flag word.
     `pmin`/`pmax` is the pixel's own disparity interval (only the specification reads it). -/
@@ -146,14 +165,14 @@ def refinePixel (P : Params) (x : PixIn) : Res PixOut :=
       | none => .err .outOfBounds
       | some .nan => .ok ⟨.nan, x.d, x.flag⟩
       | some (.num c1) =>
-        if dv ≠ P.dmin ∧ dv ≠ P.dmax then
+        if notAtEnd P x.costs.length dv dsp then
           match pyGet x.costs (dsp - 1), pyGet x.costs (dsp + 1) with
           | some c0, some c2 =>
-            match runMethod P.method P.isMax c0 c1 c2 with
-            | .ok r => .ok ⟨.num r.cost, .num (dv + r.shift / (P.subpix : Rat)), x.flag + r.flag⟩
+            match runMethod P.variant.fixFlat P.method P.isMax c0 c1 c2 with
+            | .ok r => .ok ⟨.num r.cost, .num (dv + r.shift / (P.subpix : Rat)), addFlag P.variant.fixOr x.flag r.flag⟩
             | .err e => .err e
           | _, _ => .err .outOfBounds
-        else .ok ⟨.num c1, x.d, x.flag + stoppedBit⟩
+        else .ok ⟨.num c1, x.d, addFlag P.variant.fixOr x.flag stoppedBit⟩
 
 /-- `mapM` written out (first error wins; the pixels are independent: each iteration reads and
     writes only its own cells) -/
